@@ -36,7 +36,12 @@ type Witness struct {
 
 func (w *Witness) String(p *Prog) string {
 	var bs []string
-	for _, b := range w.Blocks {
+	blocks := w.Blocks
+	if len(blocks) > 14 {
+		blocks = blocks[len(blocks)-14:]
+		bs = append(bs, "...")
+	}
+	for _, b := range blocks {
 		bs = append(bs, fmt.Sprint(b))
 	}
 	return fmt.Sprintf("blocks %s -> %s (%s)", strings.Join(bs, ">"), p.InstrPos(w.End), instrStr(w.End))
